@@ -478,7 +478,7 @@ func modelCheck(c *lib.Ctx, maxLen int) error {
 	lib.Parallel(len(alphabets), 4, func(i int) {
 		cfg := fmt.Sprintf("CONSTANT MaxLen = %d\nCONSTANT AlphaId = %d\nINIT Init\nNEXT Next\nINVARIANT Theorem\nINVARIANT Codec\n", maxLen, i+1)
 		r, err := c.TLC(fmt.Sprintf("MCStringLit/alphabet%d", i+1), lib.TLCRun{Dir: c.SpecDir("StringLit"), Module: "MCStringLit",
-			Workers: 4, Timeout: 12 * time.Minute, Files: map[string][]byte{"MCStringLit.cfg": []byte(cfg)}})
+			Workers: c.Pick(2, 4), Timeout: 12 * time.Minute, Files: map[string][]byte{"MCStringLit.cfg": []byte(cfg)}})
 		mu.Lock()
 		defer mu.Unlock()
 		if err != nil {
